@@ -23,6 +23,12 @@ func classify(v *report.Violation) {
 	// store refuse the prefix to everybody, i.e. the unit is unobtainable.
 	case strings.HasPrefix(v.Part, "sched:allocator.PoolAllocator[") && v.Kind == "leak" && v.Site == "Allocate" && pooladapt.AllocVsReleaseSameSub(v.Trace):
 		v.Class = "C05-poolalloc-allocate-release-race"
+	// PeerPool in a cluster: an accepted Release that was served by a node other than the one whose table holds the
+	// subscriber's address leaves that address stranded. The tag is emitted by pooladapt/peercluster.go only when the
+	// leaked units / the count excess are EXACTLY the addresses it saw (in the real table, at the time of the Release
+	// and now) stay behind such a Release; every other leak or miscount of the multi-peer part stays unclassified.
+	case strings.HasPrefix(v.Part, "pool.PeerPool[x") && (conserv || (v.Kind == "exhaustion" && v.Site == "POST /pool/allocate")) && has("[cause=release-routed-away-from-holder "):
+		v.Class = "C05-peerpool-release-routed-away-from-holder"
 	case strings.HasPrefix(v.Part, "allocator.IPAllocator(huge)[") && v.Kind == "exhaustion" && v.Site == "Allocate" && has("[cause=unit-count-overflows-uint64]"):
 		v.Class = "C05-bitmap-2pow64-units"
 	}
